@@ -979,3 +979,6 @@ def required_labels(tier):
 
 
 KNOWN_PREDICATES = {}
+
+
+RULE = RULE + " " + ('Changing lazy values: one matcher is asked several times while the world behind the callables changes (plain mapping with lazy value objects, ActiveTagValueProvider, composite providers over mappings / providers): every decision is made against the CURRENT values.')
